@@ -51,7 +51,8 @@ SPEC = dict(
         ),
         thorough=(
             "all 21 297 {-1,0,1} matrices up to 3x3: every B_n orbit completely and Givens / Householder / zero-column insertion on every "
-            "matrix, all aggregators (two-column insertion of MGDA / CAGrad on 3x3: on the 560 B_3-orbit representatives); all 6 561 2x4 "
+            "matrix, all aggregators (on 3x3: two-column insertion of MGDA / CAGrad on the 560 B_3-orbit representatives, and the direct "
+            "transformations with one configuration per aggregator class plus ConFIG / AlignedMTL with a preference vector); all 6 561 2x4 "
             "matrices under S_4; D(seed) and dense2(seed), 8 matrices each, m in 2..5, n in 2..4"
         ),
     ),
@@ -70,9 +71,9 @@ SPEC = dict(
         "|x-x'| <= 2 s sqrt(max(8 epsilon, 16/(max_iters+2)))",
         "MGDA and CAGrad additionally on diag(1, 1.37, 0.61) J for the structural sublist (generic row scaling removes most argmin ties, so that "
         "the tight MGDA oracle is exercised under Givens / Householder)",
-        "tolerances: 1e-9 * sigma_max(J) * max(1, |weights|_inf); CAGrad 1e-4 (Clarabel stops at a 1e-8 duality gap; the objective "
+        "tolerances: 1e-9 * sigma_max(J) * max(1, |weights|_inf); CAGrad 3e-4 (Clarabel stops at a 1e-8 duality gap; the objective "
         "g0.g + c|g0||g| has curvature c|g0|/|g| only, so the direction g_w/|g_w| the output depends on is determined to about "
-        "sqrt(1e-8) = 1e-4; observed worst 4e-6); x = w @ J: 1e-12 * s * |w| * m",
+        "sqrt(1e-8) = 1e-4; observed worst 1.7e-5 over the thorough tier of C08); x = w @ J: 1e-12 * s * |w| * m",
         "NashMTL (stateful, excluded from the deterministic clause) takes part in the row-span clause only, on a fresh instance, "
         "on the dense family and the structural sublist of 2x2 / 2x3",
         "the orbit cases compare two recorded executions instead of re-executing A(J) for each Q: this relies on nothing but the "
@@ -82,7 +83,7 @@ SPEC = dict(
 
 DETERMINISM_SLICE = 8
 TOL = 1e-9
-TOL_BY_AGG = {"CAGrad": 1e-4}
+TOL_BY_AGG = {"CAGrad": 3e-4}
 ANGLES = (math.pi / 7, 1.0, 2.5)
 SLOW = ("MGDA", "CAGrad")
 QUICK_SHAPES = [(1, 1), (1, 2), (1, 3), (2, 1), (2, 2), (2, 3), (3, 1), (3, 2)]
@@ -478,6 +479,11 @@ def run_case(case):
     elif kind == "direct":
         m, n = case["m"], case["n"]
         cfgs = configs(m, n, case["aggs"])
+        if case.get("thin") == "slow-2col":
+            # 3x3 thorough, inexact transformations + zero columns: one configuration per aggregator class, plus the
+            # preference-carrying ones of the pinv/eigh based ConFIG / AlignedMTL (all variants run on the 3x3 orbits)
+            drop = {"UPGrad|p", "DualProj|p", "PCGrad|sched=rev", "GradDrop|U=" + str(U2[:n])}
+            cfgs = [c for c in cfgs if not any(K.cfg_key(c).startswith(d) for d in drop)]
         canon = None
         for idx in case["idx"]:
             J = A.ternary_index(m, n, idx)
